@@ -318,6 +318,10 @@ def str_oracle(fn, i, j, n):
         return s.strip().upper()
     if fn == "lower":
         return s.strip().lower()
+    if fn in ("in-list", "in-list-spaced", "in-list-cell"):
+        # docs/functions/in.md: a string term is a pipe delimited list of values; blanks around a member are not part of
+        # the value (cell values themselves are trimmed when read, so a member kept with its blanks could match nothing)
+        return s.strip() in (["a", "ab", "Ab"] + ([t.strip()] if fn == "in-list-cell" else []))
 
 
 STRFN = {
@@ -328,6 +332,9 @@ STRFN = {
     "strip": "@r = strip(#0)",
     "upper": "@r = upper(#0)",
     "lower": "@r = lower(#0)",
+    "in-list": '@r = in(#0, "a|ab|Ab")',
+    "in-list-spaced": '@r = in(#0, " a | ab|Ab ")',
+    "in-list-cell": '@r = in(#0, "a | ab", #1, "Ab")',
 }
 
 
@@ -336,11 +343,12 @@ STRFN = {
     "O1-string-functions",
     pre=["0 <= i < 7 and 0 <= j < 7", "0 <= n <= 3"],
     post="_ == str_oracle(fn, i, j, n)",
-    bound="length, concat, starts_with, substring, strip, upper, lower over two cells picked by symbolic indexes from 7 texts "
+    bound="length, concat, starts_with, substring, strip, upper, lower, in() with pipe delimited term lists (compact, with blanks around "
+    "members, mixed with a cell argument) over two cells picked by symbolic indexes from 7 texts "
     "(1-3 letters, surrounding and inner blanks, mixed case) and a symbolic length 0..3; the value assigned from the function "
     "equals the Python meaning docs/functions/string_functions.md refers to",
     outside="other cell texts; empty cells (read as None)",
-    encodes=ENC + ["csvpath/matching/functions/strings/*.py (length, concat, starts_with, substring, strip, upper, lower)"],
+    encodes=ENC + ["csvpath/matching/functions/strings/*.py (length, concat, starts_with, substring, strip, upper, lower)", "csvpath/matching/functions/boolean/inf.py:In._decide_match"],
     tiers={"quick": {"timeout": 900, "shards": product(fn=list(STRFN))}},
 )
 def string_fn(fn: str, i: int, j: int, n: int):
